@@ -3,6 +3,7 @@ CONSTANTS Kinds = {"plain"}
           MixedServerSet = {}
           MixedCoreServers = {}
           MixedMethKeys = {"G", "GP"}
+          PlainMethKeys = {"G", "P", "GP"}
           MaxLen = 2
           MaxT = 2
           ServerSet = {"none"}
@@ -11,5 +12,6 @@ CONSTANTS Kinds = {"plain"}
           CoreServers = {}
           Slice = 0
           Seed = 1
+          DesignAll = TRUE
 INVARIANTS PinnedRefines
 CHECK_DEADLOCK FALSE
